@@ -62,6 +62,12 @@ class ParallelLoopTrans(LoopTrans, metaclass=abc.ABCMeta):
     # being transformed.
     excluded_node_types = (nodes.Return, psyGen.HaloExchange, nodes.CodeBlock)
 
+    # Whether the directive created by this transformation can mark a loop
+    # as one that must be executed sequentially (the 'sequential' option).
+    # Sub-classes whose directive always parallelises the loop set this to
+    # False.
+    _supports_sequential = True
+
     @abc.abstractmethod
     def _directive(self, children, collapse=None):
         '''
@@ -112,6 +118,12 @@ class ParallelLoopTrans(LoopTrans, metaclass=abc.ABCMeta):
         collapse = options.get("collapse", None)
         ignore_dep_analysis = options.get("force", False)
         sequential = options.get("sequential", False)
+        if sequential and not self._supports_sequential:
+            # Otherwise the option would switch off the dependence analysis
+            # for a directive that parallelises the loop.
+            raise TransformationError(
+                f"Error in {self.name} transformation. The 'sequential' "
+                f"option is not supported by this transformation.")
 
         # Check we are not a sequential loop
         if (not sequential and isinstance(node, PSyLoop) and
